@@ -201,6 +201,8 @@ impl<'a, D> BfsPred<'a, D> {
         let visited_ptr = visited.as_mut_ptr();
 
         for u in sources {
+            assert!(u < order, "u = {u} isn't in the digraph");
+
             queue.push_back((None, u));
 
             unsafe {
